@@ -198,12 +198,12 @@ def replay_structured(case):
         try:
             res = build(formula, tb if mat == "narwhals-arrow" else df, path, output, mat, {"full_rank": True, "na": case["na"], "cluster": False})
             _, parts = shape_and_parts(res)
-            if len(parts) != len(case["parts"]):
+            if kept and len(parts) != len(case["parts"]):
                 bad.append({**base, "why": "number of parts", "observed": len(parts), "expected": len(case["parts"])})
                 continue
             for i, mm in enumerate(parts):
                 names, cells, _, _, arr = matlib.alpha_matrix(mm, output)
-                exp = case["parts"][i]
+                exp = case["parts"][i] if kept else None
                 if arr.shape[0] != len(kept):
                     bad.append({**base, "why": f"rows-of-part-{i}", "observed": int(arr.shape[0]), "expected": len(kept)})
                 elif kept and names != exp["names"]:
